@@ -31,7 +31,7 @@ impl Prop for C10 {
             Phase::new("gprog", tier.pick(2500, 80000)).min_cases(tier.pick(600, 20000)).timeouts(120, tier.pick(300, 1500)),
             Phase::new("own-line-comments", tier.pick(1500, 40000)).min_cases(tier.pick(300, 8000)).timeouts(120, tier.pick(300, 1500)),
             Phase::new("inline-comments", tier.pick(2000, 60000)).min_cases(tier.pick(400, 12000)).timeouts(120, tier.pick(300, 1500)),
-            Phase::new("repo-files", tier.pick(400, 4000)).min_cases(tier.pick(60, 600)).timeouts(300, tier.pick(300, 1500)),
+            Phase::new("repo-files", tier.pick(400, 4000)).min_cases(tier.pick(60, 300)).timeouts(300, tier.pick(300, 1500)),
         ]
     }
     fn worker(&self, ctx: &WorkerCtx) -> Box<dyn Worker> {
